@@ -833,11 +833,12 @@ class Fn:
             if k == "ForStmt" and self.has_return(s):
                 init, _, cnd, inc, body = s["inner"]
                 bs = self.flatten(body)
-                if not (len(bs) == 1 and bs[0]["kind"] == "IfStmt" and len(bs[0]["inner"]) == 2 and not bs[0].get("hasInit") and not bs[0].get("hasVar")):
-                    raise Unsupported("%s: a loop may only leave through `for (..) if (c) return e;`" % self.where(s))
-                th = self.flatten(bs[0]["inner"][1])
-                if not (len(th) == 1 and th[0]["kind"] == "ReturnStmt" and th[0].get("inner") and self.ret == "idx" and self.int_literal(th[0]["inner"][0]) is not None):
-                    raise Unsupported("%s: the early return of a search loop must return an integer constant" % self.where(s))
+                search = (len(bs) == 1 and bs[0]["kind"] == "IfStmt" and len(bs[0]["inner"]) == 2 and not bs[0].get("hasInit") and not bs[0].get("hasVar"))
+                th = self.flatten(bs[0]["inner"][1]) if search else []
+                search = search and (len(th) == 1 and th[0]["kind"] == "ReturnStmt" and th[0].get("inner") and self.ret == "idx" and self.int_literal(th[0]["inner"][0]) is not None)
+                if not search:
+                    lines.extend(self.ret_loop(s, stmts[j + 1:], ind))
+                    return lines
                 if not (init and init.get("kind") == "BinaryOperator" and init["opcode"] == "=" and unwrap(init["inner"][0])["kind"] == "DeclRefExpr"):
                     raise Unsupported("%s: for-init" % self.where(s))
                 iv = unwrap(init["inner"][0])["referencedDecl"]["name"]
@@ -890,6 +891,112 @@ class Fn:
         if self.ret is not None:
             raise Unsupported("%s: control reaches the end of a non-void function" % self.where())
         lines.append(pad + "return! " + self.result(None))
+        return lines
+
+    def ret_loop(self, s, rest, ind):
+        """`for (i = lo; i < hi; i++) body` whose body may `return e;` on some paths and carries state on the others:
+        `loopRet lo hi state fun i state => … pure (Sum.inl e) | pure (Sum.inr state)`, then the function continues on `Sum.inr`"""
+        pad = "  " * ind
+        init, _, cnd, inc, body = s["inner"]
+        if self.ret is None:
+            raise Unsupported("%s: return inside a loop of a void function" % self.where(s))
+        if not (init and init.get("kind") == "BinaryOperator" and init["opcode"] == "=" and unwrap(init["inner"][0])["kind"] == "DeclRefExpr"):
+            raise Unsupported("%s: for-init" % self.where(s))
+        iv = unwrap(init["inner"][0])["referencedDecl"]["name"]
+        if self.kind.get(iv) != "idx":
+            raise Unsupported("%s: loop counter %s" % (self.where(s), iv))
+        lo = self.idx(init["inner"][1])
+        c = unwrap(cnd) if cnd and cnd.get("kind") else None
+        if not (c and c["kind"] == "BinaryOperator" and c["opcode"] == "<" and unwrap(c["inner"][0]).get("referencedDecl", {}).get("name") == iv):
+            raise Unsupported("%s: loop condition is not `%s < bound`" % (self.where(s), iv))
+        if not (inc and inc.get("kind") == "UnaryOperator" and inc["opcode"] == "++" and unwrap(inc["inner"][0])["referencedDecl"]["name"] == iv):
+            raise Unsupported("%s: loop increment is not `%s++`" % (self.where(s), iv))
+        bs = self.flatten(body)
+        found = []
+        self.walk(body, lambda x: found.append(1) if x.get("kind") in ("BreakStmt", "ContinueStmt", "GotoStmt") else None)
+        if found:
+            raise Unsupported("%s: break / continue / goto in a loop" % self.where(s))
+        asg = self.assigned(bs)
+        if iv in asg:
+            raise Unsupported("%s: loop counter assigned in the body" % self.where(s))
+        if set(self.vars_in(c["inner"][1])) & set(asg):
+            raise Unsupported("%s: loop bound modified by the body" % self.where(s))
+        hi = self.idx(c["inner"][1])
+        rbw = self.reads_before_write(bs)
+        later = set()
+        for x in rest:
+            later.update(self.vars_in(x))
+        if iv in later:
+            raise Unsupported("%s: counter of a loop with early return read after the loop" % self.where(s))
+        state = [v for v in asg if self.kind.get(v) in ("arr", "mat") or v in rbw or v in later]
+        for v in state:
+            if self.kind.get(v) in ("arr", "mat"):
+                raise Unsupported("%s: a loop with early return may not write arrays" % self.where(s))
+            if v not in self.bound:
+                raise Unsupported("%s: %s is carried by the loop but has no value before it" % (self.where(s), v))
+        if not state:
+            raise Unsupported("%s: loop with early return but without state (use the search-loop form)" % self.where(s))
+        names = [self.ident(v) for v in state]
+        tup = "(%s)" % ", ".join(names) if len(names) > 1 else names[0]
+        res = "s" if len(names) > 1 else names[0]
+        saved = set(self.bound)
+        self.bound.add(iv)
+
+        def body_block(stmts, depth):
+            p2 = "  " * depth
+            out = []
+            for jj, x in enumerate(stmts):
+                k = x["kind"]
+                if k == "ReturnStmt":
+                    if not x.get("inner"):
+                        raise Unsupported("%s: bare return" % self.where(x))
+                    pre = []
+                    r = ("(%s : Int)" % self.idx(x["inner"][0])) if self.ret == "idx" else self.elem(x["inner"][0], pre)
+                    out.extend(p2 + l for l in pre)
+                    out.append(p2 + "pure (Sum.inl %s)" % r)
+                    return out
+                if k == "IfStmt" and self.has_return(x):
+                    if x.get("hasInit") or x.get("hasVar"):
+                        raise Unsupported("%s: if with init" % self.where(x))
+                    pre = []
+                    cc = self.cond(x["inner"][0], pre)
+                    out.extend(p2 + l for l in pre)
+                    th = self.flatten(x["inner"][1])
+                    el = self.flatten(x["inner"][2]) if len(x["inner"]) > 2 else []
+                    keep = set(self.bound)
+                    out.append(p2 + "if %s then" % cc)
+                    out.extend(body_block(th + stmts[jj + 1:], depth + 1))
+                    self.bound = set(keep)
+                    out.append(p2 + "else")
+                    out.extend(body_block(el + stmts[jj + 1:], depth + 1))
+                    self.bound = set(keep)
+                    return out
+                sub = []
+                self.stmt(x, sub, stmts[jj + 1:] + bs)
+                out.extend(p2 + l for l in sub)
+            out.append(p2 + "pure (Sum.inr %s)" % tup)
+            return out
+
+        bl = []
+        if len(names) > 1:
+            for i, v in enumerate(names):
+                bl.append("let %s := %s" % (v, self.proj(i, len(names))))
+        inner = body_block(bs, 0)
+        self.bound = saved | set(state)
+        self.bound.discard(iv)
+        r = self.fresh()
+        lines = [pad + "let %s ← loopRet %s %s %s fun %s %s => do" % (r, lo, hi, tup, self.ident(iv), res)]
+        lines.extend(pad + "    " + x for x in bl + inner)
+        self.monadic = True; self.stats["n_loops"] += 1
+        e = self.fresh()
+        lines.append(pad + "match %s with" % r)
+        lines.append(pad + "| Sum.inl %s =>" % e)
+        lines.append(pad + "  return! %s" % e)
+        lines.append(pad + "| Sum.inr %s =>" % res)
+        if len(names) > 1:
+            for i, v in enumerate(names):
+                lines.append(pad + "  let %s := %s" % (v, self.proj(i, len(names))))
+        lines.extend(self.block(rest, ind + 1))
         return lines
 
     def translate(self):
@@ -1017,6 +1124,7 @@ def plan():
     # the probability / log-space routines over `double` (the `float` versions mix binary32 and binary64: hand model Vec/Model.lean)
     vec += [("esl_vec_D%s" % r, None, "") for r in ("Norm", "Log", "Log2", "Exp", "Exp2", "LogSum", "Log2Sum", "LogNorm", "Log2Norm", "Entropy")]
     vec += [("esl_vec_F%s" % r, None, "") for r in ("Norm", "Log", "Log2", "Exp", "Exp2", "LogSum", "Log2Sum", "LogNorm", "Log2Norm", "Entropy")]
+    vec += [("esl_vec_DRelEntropy", None, ""), ("esl_vec_FRelEntropy", None, "")]
     vec += [("esl_vec_DCDF", None, ""), ("esl_vec_DCDF", {"cdf": "p"}, "_inplace"), ("esl_vec_FCDF", None, ""), ("esl_vec_FCDF", {"cdf": "p"}, "_inplace")]
     cmpf = [("qsort_%s%s" % (T, d), None, "") for d in ("Increasing", "Decreasing") for T in VEC_TYPES]
     sort = [("esl_vec_%sSort%s" % (T, d), None, "") for d in ("Increasing", "Decreasing") for T in VEC_TYPES]
